@@ -629,6 +629,14 @@ impl Kernel {
     }
 }
 
+#[cfg(feature = "verif-hooks")]
+impl Kernel {
+    /// Read-only access to the socket table for `crate::verif`.
+    pub(crate) fn verif_table(&self) -> &SocketTable {
+        &self.sockets
+    }
+}
+
 impl Default for Kernel {
     fn default() -> Self {
         Self::new()
